@@ -16,7 +16,7 @@ STAGES = ["core", "mono", "lift", "anf"]
 
 
 def run_model(ctx, lines):
-    p = subprocess.run(["bash", "-c", f"ulimit -s unlimited; exec {vlib.MODEL} c03"], input="\n".join(lines) + "\n",
+    p = vlib.srun(["bash", "-c", f"ulimit -s unlimited; exec {vlib.MODEL} c03"], input="\n".join(lines) + "\n",
                        stdout=subprocess.PIPE, stderr=subprocess.PIPE, text=True, timeout=3000)
     res = {}
     for l in p.stdout.split("\n"):
